@@ -542,6 +542,58 @@ def run(ctx):
         r.ok('no helper of the planner is recognised by comparing its result with a negative constant', func='<xor_hd_code.c>', loc=hm2.src)
     r.require_min(1)
 
+    # ---------------- R06n the equation that serves the last element always contributes its members
+    r = ctx.rule('R06n', 'XOR planner, one unavailable data element left: whenever it answers 0 it has added the members of the chosen equation to the data bitmap',
+                 'a shortcut that returns as soon as the parity is already marked assumes its members were added with it - the P xor Q step marks two parities and adds only what did not cancel')
+    f1 = hm2.functions.get('@fragments_needed_one_data')
+    if f1 is None:
+        raise AnalysisBroken('anchor vanished: fragments_needed_one_data')
+    from ..retval import returns_via_edge as _rve6n
+    dparam = f1.params[3][1]
+    Ad6, _ = derived_pointers(f1, [dparam])
+    def adds_members(st):
+        if st.op != 'store' or st.ops[1] not in Ad6:
+            return False
+        seen_, stack_ = set(), [st.ops[0]]
+        while stack_:
+            v_ = strip_int_casts(f1, stack_.pop())
+            if v_ in seen_:
+                continue
+            seen_.add(v_)
+            d_ = f1.defs.get(v_)
+            if d_ is None:
+                continue
+            if d_.op == 'load':
+                fl_ = fields_in_path(access_path(P, f1, d_.ops[0])[1])
+                g_ = f1.defs.get(strip_ptr_casts(f1, d_.ops[0]))
+                bd_ = f1.defs.get(strip_ptr_casts(f1, g_.ops[0])) if g_ is not None and g_.op == 'getelementptr' else None
+                fl2_ = fields_in_path(access_path(P, f1, bd_.ops[0])[1]) if bd_ is not None and bd_.op == 'load' else []
+                if (fl_ and fl_[-1] == ('xor_code_s', 'parity_bms')) or (fl2_ and fl2_[-1] == ('xor_code_s', 'parity_bms')):
+                    return True
+            elif d_.op in ('or', 'and', 'xor', 'phi', 'select'):
+                stack_ += [o for o in (d_.ops if d_.op != 'phi' else [x for x, _ in d_.incoming]) if isinstance(o, str) and o.startswith('%')]
+        return False
+    adders = [i for i in f1.insts() if adds_members(i)]
+    zero_rets = []
+    for b_ in f1.order:
+        t_ = b_.insts[-1]
+        if t_.op == 'ret' and t_.ops:
+            d_ = f1.defs.get(t_.ops[0])
+            if d_ is not None and d_.op == 'phi' and d_.bb is b_:
+                zero_rets += [f1.blocks[l_] for v_, l_ in d_.incoming if v_ == '0']
+            elif t_.ops[0] == '0':
+                zero_rets.append(b_)
+    inst = 'fragments_needed_one_data: every path that answers 0 passes the store that ORs the chosen equation into *data_bm'
+    if not adders or not zero_rets:
+        r.undecided(inst, loc=f1.mod.src, msg=f'{len(adders)} stores of equation members, {len(zero_rets)} paths returning 0')
+    elif shared.must_pass_store(f1, adders, zero_rets):
+        r.ok(inst, func=f1.name, loc=adders[0].loc)
+    else:
+        r.fail(inst, func=f1.name, sig='planner answers 0 without adding the equation members', loc=adders[0].loc,
+               msg='fragments_needed_one_data can return 0 on a path that does not add the data members of the equation it chose: the answer names the parity but not the '
+                   'fragments the decoder will XOR with it')
+    r.require_min(1)
+
     # ---------------- R06m RS-style planners as value functions
     r = ctx.rule('R06m', 'Reed-Solomon planners: the answer is the first k indexes that are neither requested nor excluded; an error iff fewer than k remain',
                  'a count of list entries instead of distinct indexes refuses satisfiable requests with overlapping lists; a wrong scan names unusable fragments')
